@@ -303,15 +303,18 @@ Section Run.
   Lemma v_merge_single y : v_merge [y] = Ok y.
   Proof. reflexivity. Qed.
 
+  Lemma F2_len {X Y} (R : X -> Y -> Prop) l l' : Forall2 R l l' -> List.length l = List.length l'.
+  Proof. induction 1; simpl; auto. Qed.
+
   Lemma par_general os ys t :
     Interleaving os t -> 2 <= List.length os ->
     Forall2 (fun o y => vsconcat o = Ok y) os ys -> fanin_ok ys = true ->
     vsconcat t = v_merge ys.
   Proof.
     intros Hil Hl HF Hf.
-    assert (Hly : 2 <= List.length ys) by (rewrite <- (Forall2_length HF); exact Hl).
+    assert (Hly : 2 <= List.length ys) by (rewrite <- (F2_len _ _ _ HF); exact Hl).
     destruct (fanin_ok_spec ys Hly Hf) as (ms & -> & Hd).
-    apply concat_merge_lem; auto.
+    apply (concat_merge_lem os ms t); auto.
     clear -HF. remember (map VM ms) as ys eqn:E. revert ms E.
     induction HF as [|o y os ys Ho HF IH]; intros [|m ms] E; try discriminate; constructor.
     - inversion E; subst. exact Ho.
@@ -426,7 +429,7 @@ Section Run.
              apply andb_prop in Hd as (_ & Hd). rewrite Eys in Hd.
              pose proof (mapM_ok _ _ _ Eys) as HFv.
              assert (Hly : 2 <= List.length ys).
-             { rewrite <- (Forall2_length HFv), (Forall2_length HF2). exact Hl2. }
+             { rewrite <- (F2_len _ _ _ HFv), (F2_len _ _ _ HF2). exact Hl2. }
              destruct (fanin_ok_spec ys Hly Hd) as (ms & -> & Hdk).
              unfold v_merge in Hvf. destruct ms as [|a [|b ms]]; simpl in Hly; try lia.
              change (map VM (a :: b :: ms)) with (VM a :: VM b :: map VM ms) in Hvf.
